@@ -3,6 +3,7 @@ C09 — variables and lambdas are referentially transparent and lexically scoped
 -/
 import FendModel.Model.Scope
 import FendModel.Proofs.ScopeLet
+import FendModel.Proofs.ScopeBetaFull
 
 namespace Fend.C09
 open Fend.Scope
@@ -157,6 +158,30 @@ theorem beta_first_order (bi : List (String × Rat)) (x : String) (b r : Expr) (
   have := (closure_and_call bi (fuel + 1) x b r sc vs).2 (.lam x b) x b sc vs h1
   rw [this]
   exact body_subst bi x r sc b hb (fuel + 1) vs
+
+/-- **β in full** (lexical scoping of lambdas): for an ARBITRARY body `b` — nested lambdas, applications, closures stored in
+variables and called later, assignments, sequences — and an ARBITRARY argument expression `r` (lazily evaluated, possibly
+failing, possibly with effects, possibly mentioning free names and lambdas of its own), applying `\x. b` to `r` and evaluating
+`b` with `(r)` written in place of `x` give related results in every scope and context, with the same fuel: the same error,
+or the same number, or unit, or closures that differ only by that substitution; and the variables afterwards are related in
+the same way.  Hygiene hypothesis: no binder inside `b` re-binds `x` or a name occurring in `r` (the classical side condition
+of capture-avoiding substitution; `subst` here is the plain textual one). -/
+theorem beta (bi : List (String × Rat)) (x : String) (b r : Expr) (hb : Hyg x r b = true) (fuel : Nat) (sc : Scope) (vs : Vars) :
+    ResR x r (eval bi (fuel + 2) (.app (.lam x b) r) sc vs) (eval bi (fuel + 1) (subst x r b) sc vs) :=
+  beta_full x r bi b hb fuel sc vs
+
+/-- … and what an observer of the result sees is identical -/
+theorem beta_observable (bi : List (String × Rat)) (x : String) (b r : Expr) (hb : Hyg x r b = true) (fuel : Nat) (sc : Scope) (vs : Vars) :
+    (∀ er, (eval bi (fuel + 2) (.app (.lam x b) r) sc vs).1 = .error er ↔ (eval bi (fuel + 1) (subst x r b) sc vs).1 = .error er) ∧
+    (∀ q, (eval bi (fuel + 2) (.app (.lam x b) r) sc vs).1 = .ok (.num q) ↔ (eval bi (fuel + 1) (subst x r b) sc vs).1 = .ok (.num q)) ∧
+    ((eval bi (fuel + 2) (.app (.lam x b) r) sc vs).1 = .ok .unit ↔ (eval bi (fuel + 1) (subst x r b) sc vs).1 = .ok .unit) ∧
+    ((∃ p body C, (eval bi (fuel + 2) (.app (.lam x b) r) sc vs).1 = .ok (.fn p body C)) ↔
+      (∃ p body C, (eval bi (fuel + 1) (subst x r b) sc vs).1 = .ok (.fn p body C))) :=
+  beta_full_observable x r bi b hb fuel sc vs
+
+-- non-vacuity: b = `(\y. (\z. y + z + x) x) x` hands `x` on twice through nested lambdas; r = `k + 1` has a free name
+example : Hyg "x" (.bop .add (.var "k") (.num 1))
+    (.app (.lam "y" (.app (.lam "z" (.bop .add (.bop .add (.var "y") (.var "z")) (.var "x"))) (.var "x"))) (.var "x")) = true := by decide
 
 /-- **binding a name and using it = writing the parenthesised expression in its place** (top level, closed arithmetic
 right-hand side, body without binders / applications / assignments): `x = e; b` yields exactly what `b[x := (e)]` yields —
